@@ -697,7 +697,8 @@ func (st *Runtime) evalPrimaryExpressionGroup(node Expression) reflect.Value {
 		// the parser also accepts index and call expressions as call targets: m["Method"](), f()()
 		baseExpr := st.evalPrimaryExpressionGroup(node.BaseExpr)
 		if baseExpr.Kind() != reflect.Func {
-			node.errorf("node %q is not func kind %q", node.BaseExpr, baseExpr.Type())
+			// (baseExpr may be the invalid value - nil, an absent map entry - which has no Type)
+			node.errorf("node %q is not func kind %q", node.BaseExpr, getTypeString(baseExpr))
 		}
 		ret, err := st.evalCallExpression(baseExpr, node.CallArgs)
 		if err != nil {
